@@ -1101,12 +1101,36 @@ fn run_mft(c: &MftCase, obs: &mut Obs) -> CheckResult {
     });
     let signer = ee_signer(&c.ee);
     let built = no_panic("manifest builder", || -> Result<Manifest, Fail> {
-        let content = ManifestContent::new(
-            serial_of(&c.number)?,
-            time_s(c.this_update)?,
-            time_s(c.next_update)?,
-            DigestAlgorithm::sha256(),
-            c.files.iter().map(|(n, h)| FileAndHash::new(n.as_bytes().to_vec(), h.clone())),
+        // The file list is handed over as an iterator; every other case uses one
+        // whose size_hint is not tight (entries filtered out after a chain), as
+        // a caller filtering a table of objects would.
+        let n = c.files.len();
+        let content = if n % 2 == 1 {
+            ManifestContent::new(
+                serial_of(&c.number)?,
+                time_s(c.this_update)?,
+                time_s(c.next_update)?,
+                DigestAlgorithm::sha256(),
+                c.files
+                    .iter()
+                    .chain(c.files.iter().take(3))
+                    .enumerate()
+                    .filter(|(i, _)| *i < n)
+                    .map(|(_, (n, h))| FileAndHash::new(n.as_bytes().to_vec(), h.clone())),
+            )
+        } else {
+            ManifestContent::new(
+                serial_of(&c.number)?,
+                time_s(c.this_update)?,
+                time_s(c.next_update)?,
+                DigestAlgorithm::sha256(),
+                c.files.iter().map(|(n, h)| FileAndHash::new(n.as_bytes().to_vec(), h.clone())),
+            )
+        };
+        ensure_sig!(
+            content.len() == n && content.iter().count() == n && content.is_empty() == (n == 0),
+            "c05:manifest:built-len",
+            "ManifestContent::new given {} entries reports len() {} and iterates {}", n, content.len(), content.iter().count()
         );
         content
             .into_manifest(sigobj_builder(&c.ee)?, &signer, &signer.key(c.ee.issuer_key as usize))
